@@ -6,8 +6,8 @@
 //                                   builds + serialises the mirrored reply with libtins types
 //   m <stack> <reply hex>        -> r=0 | r=1      (sanitizer abort = FAULT, mapped by the runner)
 //
-// <stack> = layers joined by '/', outermost first; layer = name[:key=hex,…].  The reply buffer of `m` is an
-// exact-size malloc block, so any read at or past total_sz lands in the ASan red zone (also for total_sz = 0).
+// <stack> = layers joined by '/', outermost first; layer = name[:key=hex,…].  The reply buffer of `m` is placed at the
+// end of a heap block, so any read at or past total_sz lands in the ASan red zone (also for total_sz = 0).
 #include "common.h"
 #include <tins/tins.h>
 #include <tins/pdu_cacher.h>
@@ -393,10 +393,13 @@ int main() {
                 if (show_stack(norm) != w[1]) return "state-mismatch " + show_stack(norm);
                 std::unique_ptr<PDU> req(build(st, true));
                 req->serialize();                                 // what PacketSender::send does before receiving
-                uint8_t* buf = static_cast<uint8_t*>(std::malloc(reply.size()));   // exact-size block, also for size 0
+                // the reply occupies the last bytes of a heap block (ASan red zone starts at buf + size, also for size 0:
+                // malloc(0) itself would give a 1-byte region whose first byte is readable)
+                uint8_t* block = static_cast<uint8_t*>(std::malloc(reply.size() + 16));
+                uint8_t* buf = block + 16;
                 if (!reply.empty()) std::memcpy(buf, reply.data(), reply.size());
                 bool r = req->matches_response(buf, uint32_t(reply.size()));
-                std::free(buf);
+                std::free(block);
                 return r ? "r=1" : "r=0";
             }
         } catch (const std::runtime_error& e) {
